@@ -25,7 +25,8 @@ RULE = ('(tcpcl) two-endpoint histories as in C01/C09 (sends, pops, terminate, s
         'hand every transfer that completed on the wire to the BP agent once, with the sender octets, leave the receive queues '
         'empty, and every value crossing the bus in either direction must marshal against the declared signature; over impaired datagram '
         'networks (every UDP datagram / Ethernet frame twice and / or out of order) a second copy of a bundle may be announced and handed over, '
-        'but nothing that no peer sent, and the queues still drain.  Non-trivial = a query '
+        'but nothing that no peer sent, and the queues still drain; every TCP connection a node holds open at quiescence is a contact its agent '
+        'lists (the virtual bus refuses a second object on a taken path, as dbus-python does).  Non-trivial = a query '
         'landed while a transfer was mid-flight; distinct by SHA-1 of the case.')
 SHRINK_KEYS = ('ops',)
 ASSUMPTIONS = [
@@ -110,6 +111,10 @@ def pinned_cases():
         yield 'stack-netfault-%s' % fault, {'kind': 'stack', 'keepalive': 0, 'hops': ['udpcl', 'btpu'], 'umtu': 100, 'emtu': 100, 'rmtu': None,
                                             'size': 300, 'netfault': fault,
                                             'ops': [['send', 1, 3, True, 1], ['send', 3, 1, False, 0], ['send', 1, 3, True, 0], ['wait', 1000]]}
+    # a contact of n2 goes away while another one stays, then a new one arrives (object paths must not be used twice)
+    yield 'stack-contact-arrives-after-another-left', {'kind': 'stack', 'keepalive': 0, 'hops': ['tcpcl', 'tcpcl'], 'umtu': None, 'emtu': None,
+                                                       'rmtu': None, 'size': 8,
+                                                       'ops': [['send', 1, 3, True, 0], ['close', 1], ['send', 1, 3, True, 0], ['send', 3, 1, True, 0]]}
     yield 'stack-finish-then-terminate', {'kind': 'stack', 'hops': ['tcpcl', 'tcpcl'], 'keepalive': 10, 'rmtu': 150, 'size': 8, 'umtu': None,
                                           'ops': [['send', 1, 3, True, 0], ['send', 3, 2, False, 0], ['cut', 2], ['send', 1, 2, True, 1]]}
     yield 'pop-to-unwritable-file', {'kind': 'tcpcl', 'cfg': cfg,
@@ -455,6 +460,21 @@ def execute_stack(case, out):
                 left = list(agent.recv_bundle_get_queue())
                 if left:
                     out.fail('receive-queue-not-drained', '%s agent of n%d still lists %s after the adaptor handled every signal' % (name, index, left))
+        # the bus view and reality: every TCP connection a node still holds open at quiescence is a contact that its TCPCL
+        # agent lists (a contact may be listed longer than its connection lives - an unpopped bundle - never the reverse)
+        from vlib import tcpcl_world as tw
+        for index, host in world.hosts.items():
+            open_socks = 0
+            for ent in world.net.links:
+                link = ent['link']
+                if ent['a'][0] == host.address and not link.sock_a.closed:
+                    open_socks += 1
+                if ent['b'][0] == host.address and not link.sock_b.closed:
+                    open_socks += 1
+            listed = tw.dbuscall(host.tctx, host.tcpcl, 'get_connections')
+            if not hasattr(listed, 'exc') and len(list(listed)) < open_socks:
+                out.fail('connection-without-contact', 'n%d holds %d open TCP connection(s), get_connections() lists %d contact(s) %s: ops %s'
+                         % (index, open_socks, len(list(listed)), [str(x) for x in listed], case['ops']))
         for ev in dbus.RECORDER.events:
             if ev.get('error') and ev['kind'] in ('signal', 'return'):
                 out.fail('does-not-marshal:%s' % ev['member'], '%s %s%r does not fit %r: %s'
